@@ -32,3 +32,28 @@ pub(crate) fn on_insertion_applied(insertion_ctx: &InsertionContext, site: Inser
         observer(insertion_ctx, site);
     }
 }
+
+thread_local! {
+    static STATE_TYPES: RefCell<std::collections::BTreeMap<std::any::TypeId, (&'static str, &'static str)>> =
+        const { RefCell::new(std::collections::BTreeMap::new()) };
+}
+
+/// Remembers the names of a state key type and of the value type stored under it (current thread).
+pub(crate) fn note_state_type<K: 'static, V: 'static>() {
+    STATE_TYPES.with(|types| {
+        types
+            .borrow_mut()
+            .entry(std::any::TypeId::of::<K>())
+            .or_insert_with(|| (std::any::type_name::<K>(), std::any::type_name::<V>()));
+    })
+}
+
+/// Returns the names of the key type and of the value type of a state entry, if one was stored on this thread.
+pub fn state_type_names(key: &std::any::TypeId) -> Option<(&'static str, &'static str)> {
+    STATE_TYPES.with(|types| types.borrow().get(key).copied())
+}
+
+/// Renders the value of a state entry whose type is private to the crate (bit exact, order independent).
+pub fn render_private_state(value: &(dyn std::any::Any + Send + Sync)) -> Option<String> {
+    crate::construction::features::verif_render_medoid_index(value)
+}
